@@ -216,10 +216,17 @@ func init() {
 			"the reference matcher encodes the documented grammar; a negated class containing a reversed range ([^b-a]) is not judged (counted as inconclusive)",
 			"only valid UTF-8 patterns and names are generated",
 		},
-		Workers:    func(string) int { return 16 },
-		Floors:     func(string) map[string]int64 { return map[string]int64{"enum_pairs_reference_match": 1000, "enum_patterns_malformed": 100, "random_pairs_reference_match": 1000} },
-		Run:        runC17,
-		TimeoutS:   func(t string) int { if t == "thorough" { return 3000 }; return 300 },
+		Workers: func(string) int { return 16 },
+		Floors: func(string) map[string]int64 {
+			return map[string]int64{"enum_pairs_reference_match": 1000, "enum_patterns_malformed": 100, "random_pairs_reference_match": 1000}
+		},
+		Run: runC17,
+		TimeoutS: func(t string) int {
+			if t == "thorough" {
+				return 3000
+			}
+			return 300
+		},
 		Exhaustive: func(string) bool { return true },
 	})
 }
